@@ -308,6 +308,7 @@ func (r *runner) afterCrash() {
 	r.inflight = -1
 	r.pos++ // the interrupted operation is not retried
 	r.opened = false
+	r.mon.epochStart()
 }
 
 func (r *runner) ensureOpen() bool {
@@ -792,7 +793,14 @@ func (r *runner) stepIter(is *iterState, moves []Move, scrib bool) {
 	}
 }
 
+// settleCheck waits until background work has settled - all DB goroutines
+// blocked, and the version-reference cache (which may hold back file removal
+// for up to 5 minutes) expired twice - and then evaluates I-files.
 func (r *runner) settleCheck() {
+	simrt.Quiesce()
+	simrt.IdleFor(301 * time.Second)
+	simrt.Quiesce()
+	simrt.IdleFor(301 * time.Second)
 	simrt.Quiesce()
 	simrt.Progress()
 	r.mon.checkFilesSettled()
